@@ -44,7 +44,7 @@ RULE = ('sequences of 1-10 blocks on systems drawn from 8 raster families (Sieme
         'delays, all raster-aligned (stream valid: report must be empty, write() must not warn). Fault streams overwrite one or '
         '2-4 timing fields: +0.5 / +0.3 / +2e-4 / +1e-5 raster (must be reported), +1e-9 raster (must not), ADC delay on the '
         'ADC but not the RF raster, negative delays, delays below the dead time, events built for a system with shorter dead '
-        'times / ring-down, stored block duration cut, extended or moved off the block raster, a field or the block duration moved by one step of ANOTHER raster of the system, repeated blocks (same events, other padding, valid or off raster), seconds-long delays (1e5-3e6 block rasters) with tiny offsets; 30% of the RF/ADC dead and ring-down times are NOT on the RF raster (delays one aligned step below them must be reported). Object histories (110 quick): one Sequence object goes through add_block / set_block / read() of another (mostly invalid) file / remove_duplicates(in_place) / assignment of another system / repeated check_timing, and after every step the report must equal the oracle for the CURRENT content of the object. Oracle: TimingValid/Violates '
+        'times / ring-down, stored block duration cut, extended or moved off the block raster, a field or the block duration moved by one step of ANOTHER raster of the system, repeated blocks (same events, other padding, valid or off raster), seconds-long delays (1e5-3e6 block rasters) with tiny offsets; 30% of the RF/ADC dead and ring-down times are NOT on the RF raster (delays one aligned step below them must be reported). A many-violation stream repeats faulty blocks 4-40 times (tens to hundreds of entries); for every case check_timing(print_errors=True) and a following plain call must return the same (ok, report) as the first call. Object histories (110 quick, block cache on and off): read() is called with remove_duplicates / detect_rf_use on and off and the report of the used object must equal that of a fresh object reading the same file; one Sequence object goes through add_block / set_block / read() of another (mostly invalid) file / remove_duplicates(in_place) / assignment of another system / repeated check_timing, and after every step the report must equal the oracle for the CURRENT content of the object. Oracle: TimingValid/Violates '
         'recomputed with exact Fractions from the decoded blocks must equal the multiset of (block,event,field,kind) returned '
         'by seq.check_timing(); every injected fault must appear. Correspondence: the extracted Coq model must return the same '
         'ordered report and the same calc_duration per block. non-trivial = at least one error reported or >= 3 event kinds')
@@ -250,7 +250,7 @@ def gen_case(rng, stream, s=None):
         if dl:
             dl[0]['delay'] = float(F(dl[0]['delay']) + rng.choice([0, 1, 5]) * F(s['block']))
         case['blocks'].append(twin)
-    nf = {'valid': 0, 'fault1': 1, 'faultN': rng.randint(2, 4), 'alt': 1}[stream]
+    nf = {'valid': 0, 'fault1': 1, 'faultN': rng.randint(2, 4), 'alt': 1, 'many': rng.randint(2, 5)}[stream]
     tries = 0
     while len(case['faults']) < nf and tries < 12:
         tries += 1
@@ -258,11 +258,16 @@ def gen_case(rng, stream, s=None):
         if r is not None:
             case['faults'].append(r[0])
             case['expected'] += [list(x) for x in r[1]]
+    if stream == 'many':
+        # long sequences with tens to hundreds of violations: the faulty blocks repeated
+        reps = rng.choice([4, 8, 20, 40])
+        case['blocks'] = [copy.deepcopy(b) for _ in range(reps) for b in case['blocks']][:160]
+        case['faults'].append('blocks repeated %d times' % reps)
     return case
 
 
-def build(case):
-    seq = tg.build_sequence(case)
+def build(case, use_cache=True):
+    seq = tg.build_sequence(case, use_cache=use_cache)
     for i, b in enumerate(case['blocks']):
         new = None
         if b.get('stored_abs') is not None:
@@ -287,6 +292,24 @@ def write_outcome(seq):
                 exc = type(e).__name__ + ': ' + str(e)[:80]
         tw = [str(x.message) for x in w if 'timing' in str(x.message).lower()]
     return exc, tw
+
+
+def option_variants(seq, ok, irep):
+    """every public option of Sequence.check_timing must give the same (ok, report): print_errors=True only prints"""
+    import contextlib
+    import io
+    buf = io.StringIO()
+    with contextlib.redirect_stdout(buf):
+        ok2, rep2 = seq.check_timing(print_errors=True)
+    ok3, rep3 = seq.check_timing(print_errors=False)
+    r2, r3 = tg.norm_report(rep2), tg.norm_report(rep3)
+    if ok2 != ok or r2 != irep:
+        return {'option': 'print_errors=True', 'n_default': len(irep), 'n_option': len(r2), 'ok': [ok, ok2]}
+    if ok3 != ok or r3 != irep:
+        return {'option': 'print_errors=False after a printing call', 'n_default': len(irep), 'n_option': len(r3), 'ok': [ok, ok3]}
+    if irep and not buf.getvalue():
+        return {'option': 'print_errors=True printed nothing', 'n_default': len(irep)}
+    return None
 
 
 def evaluate(ctx, case, collect=None):
@@ -334,6 +357,10 @@ def evaluate(ctx, case, collect=None):
             if r is not None and r['delay'] + r['shape_dur'] + r['ringdown_time'] > d['stored'] + tg.EPS + Fraction(1, 10 ** 12):
                 if not any(x[0] == d['id'] for x in irep):
                     sig, detail = 'C10/ringdown-unreported', {'block': d['id']}
+    if sig is None:
+        od = option_variants(seq, ok, irep)
+        if od:
+            sig, detail = 'C10/option-changes-result/' + od['option'].split(' ')[0], od
     wrote = None
     if sig is None and ok:
         exc, tw = write_outcome(seq)
@@ -346,7 +373,8 @@ def evaluate(ctx, case, collect=None):
     for x in irep:
         ctx.count('kind.' + x[3])
         ctx.count('field.%s.%s' % (x[1].replace('gy', 'g*').replace('gz', 'g*').replace('gx', 'g*'), x[2]))
-    ctx.count('report.%s' % ('empty' if not irep else '1' if len(irep) == 1 else '2-3' if len(irep) <= 3 else '>3'))
+    ctx.count('report.%s' % ('empty' if not irep else '1' if len(irep) == 1 else '2-3' if len(irep) <= 3 else '4-10' if len(irep) <= 10
+                             else '11-100' if len(irep) <= 100 else '>100'))
     ctx.count('stream.' + case['stream'])
     ctx.count('family.' + case['sys']['family'])
     if near:
@@ -371,14 +399,16 @@ def gen_history(rng):
     steps = []
     for _ in range(rng.randint(2, 5)):
         k = rng.choice(['add', 'set', 'read', 'read', 'dedup', 'system', 'check'])
-        if k in ('add', 'set'):
+        if k == 'read':
+            steps.append([k, {'remove_duplicates': rng.random() < 0.5, 'detect_rf_use': rng.random() < 0.4}])
+        elif k in ('add', 'set'):
             steps.append([k, rng.randint(0, 10 ** 6), copy.deepcopy(rng.choice(pool['blocks']))])
         elif k == 'system':
             steps.append([k, rng.choice([longer, tg.shorter_system(rng, s), s])])
         else:
             steps.append([k])
     return {'stream': 'history', 'sys': s, 'alt': None, 'faults': [], 'expected': [], 'blocks': first['blocks'],
-            'first': first, 'other': other, 'pool_alt': pool.get('alt'), 'steps': steps}
+            'first': first, 'other': other, 'pool_alt': pool.get('alt'), 'steps': steps, 'cache': rng.random() < 0.7}
 
 
 def judge(ctx, case, seq, label):
@@ -412,7 +442,7 @@ def evaluate_history(ctx, case):
     import pypulseq as pp
     items = []
     try:
-        seq = build(case['first'])
+        seq = build(case['first'], use_cache=case.get('cache', True))
     except Exception:  # noqa: BLE001
         ctx.count('history.build_raises')
         return items
@@ -437,7 +467,12 @@ def evaluate_history(ctx, case):
                     with tempfile.TemporaryDirectory(prefix='pvC10h') as d:
                         fn = os.path.join(d, 'o.seq')
                         src.write(fn, create_signature=False)
-                        seq.read(fn)
+                        ropt = st[1] if len(st) > 1 else {}
+                        seq.read(fn, **ropt)
+                        # a fresh object that reads the same file with the same options is the reference
+                        fresh = pp.Sequence(seq.system, use_block_cache=case.get('cache', True))
+                        fresh.read(fn, **ropt)
+                        fresh_rep = (fresh.check_timing()[0], tg.norm_report(fresh.check_timing()[1]))
                 elif k == 'dedup':
                     seq.remove_duplicates(in_place=True)
                 elif k == 'system':
@@ -448,6 +483,10 @@ def evaluate_history(ctx, case):
             ctx.count('history.step_raises.' + k + '.' + type(e).__name__)
             continue
         it = judge(ctx, case, seq, label)
+        if it and k == 'read' and it['sig'] is None and (it['ok'], it['irep']) != fresh_rep:
+            it['sig'] = 'C10/history/used-object-differs-from-fresh-object-after-read'
+            ctx.fail(it['sig'], case, {'after': label, 'options': st[1] if len(st) > 1 else {}, 'cache': case.get('cache', True),
+                                       'used': it['irep'][:8], 'fresh': fresh_rep[1][:8]})
         if it:
             items.append(it)
             if it['sig']:
@@ -579,7 +618,7 @@ def run(ctx):
     if pending and ctx.model_available:
         compare_model(ctx, pending)
     rng = ctx.rng('sequences')
-    streams = ['valid'] * 3 + ['fault1'] * 4 + ['faultN'] * 2 + ['alt']
+    streams = ['valid'] * 6 + ['fault1'] * 8 + ['faultN'] * 4 + ['alt'] * 2 + ['many']
     import itertools
     cases = itertools.chain(corpus(), (gen_case(rng, streams[i % len(streams)]) for i in range(n)))     # lazily: time-boxed runs
     pending = []
